@@ -331,6 +331,26 @@ def run(ctx):
                                 ok = True
                 why_c = None
                 if not ok:
+                    # `match self.root { EMPTY_REF => true, _ => false }`: a switch on the root whose EMPTY_REF arm returns true
+                    from evalrel import resolve_phi
+                    for s0, d0 in b.switch_discr.items():
+                        d0 = strip(d0)
+                        if d0.kind == 'load' and prog.self_field(d0) == ('root',):
+                            t0 = b.mir['blocks'][s0]['term']
+                            arms = {}
+                            for tv, tb in t0['targets']:
+                                arms[tv] = tb
+                            e_t = arms.get(prog.EMPTY_REF)
+                            o_t = t0['otherwise']
+                            if e_t is not None and o_t is not None and len(b.cfg.returns) >= 1:
+                                # simple shape: each arm is a block that assigns a constant and jumps to the return
+                                rv0 = strip(list(b.ret_val.values())[0])
+                                if rv0.kind == 'phi' and len(rv0.args) == len(rv0.extra.get('preds', ())):
+                                    byp = {p_: strip(a_) for a_, p_ in zip(rv0.args, rv0.extra['preds'])}
+                                    ve, vo = byp.get(e_t), byp.get(o_t)
+                                    if ve is not None and vo is not None and ve.kind == 'const' and vo.kind == 'const' and bool(ve.args[0]) is True and bool(vo.args[0]) is False:
+                                        ok = True
+                if not ok:
                     # the other sound form: a maintained entry counter compared with 0
                     for rv in b.ret_val.values():
                         rv = strip(rv)
